@@ -200,7 +200,7 @@ type PersistUpdate struct {
 // WARNING: must not modify meta.
 func (m *Meta) Persist(exec func(func() PersistUpdate)) {
 	for ti := range m.info.All() {
-		if len(ti.Indexes) >= 1 && ti.Indexes[0].Modified() {
+		if anyModified(ti.Indexes) {
 			exec(func() PersistUpdate {
 				results := make([]*btree.T, len(ti.Indexes))
 				for i, ov := range ti.Indexes {
@@ -210,6 +210,19 @@ func (m *Meta) Persist(exec func(func() PersistUpdate)) {
 			})
 		}
 	}
+}
+
+// anyModified returns whether any of the indexes has changes to save.
+// The indexes of a table are normally modified together, but an index built
+// from existing data (ensure / alter create) has in its btree what the older
+// indexes still have in their base ixbuf.
+func anyModified(ovs []*index.Overlay) bool {
+	for _, ov := range ovs {
+		if ov.Modified() {
+			return true
+		}
+	}
+	return false
 }
 
 func (pu PersistUpdate) Table() string {
